@@ -14,11 +14,11 @@ VARIABLES i, tr, q, c, gl
 \* q[x]: per request; c[j]: per notification call; gl: globals
 vars == <<i, tr, q, c, gl>>
 
-Q0 == [st |-> "idle", sends |-> 0, msgid |-> 0, seqno |-> 0, body |-> 0, acked |-> FALSE, resret |-> FALSE,
+Q0 == [st |-> "idle", sends |-> 0, fails |-> 0, msgid |-> 0, seqno |-> 0, body |-> 0, acked |-> FALSE, resret |-> FALSE,
        inflight |-> 0, ackedAtClose |-> FALSE, sentdone |-> 0,
        writes |-> 0, cancelled |-> FALSE, drops |-> 0, sendfail |-> FALSE]
 C0 == [id |-> 0, k |-> "none"]
-G0 == [closed |-> FALSE, maxretries |-> 0, sched |-> TRUE]
+G0 == [closed |-> FALSE, gflag |-> FALSE, maxretries |-> 0, sched |-> TRUE]
 
 Ev == Trace[i]
 Init == i = 1 /\ tr = -1 /\ q = [x \in 1..MaxReq |-> Q0] /\ c = [j \in 1..MaxNotif |-> C0] /\ gl = G0
@@ -28,19 +28,22 @@ X == Ev.i   \* request index of the current event
 
 Reset == /\ Ev.ev = "reset"
          /\ tr' = Ev.trace /\ q' = [x \in 1..MaxReq |-> Q0] /\ c' = [j \in 1..MaxNotif |-> C0]
-         /\ gl' = [closed |-> FALSE, maxretries |-> Ev.maxretries, sched |-> Ev.sched]
+         /\ gl' = [closed |-> FALSE, gflag |-> FALSE, maxretries |-> Ev.maxretries, sched |-> Ev.sched]
 
 DoStart == /\ Ev.ev = "DoStart" /\ q[X].st = "idle"
            /\ q' = [q EXCEPT ![X].st = "running"] /\ UNCHANGED <<tr, c, gl>>
 
 Send == /\ Ev.ev = "Send" /\ q[X].st = "running"
         /\ On("C25", /\ q[X].sends > 0 => (Ev.msgid = q[X].msgid /\ Ev.seqno = q[X].seqno /\ Ev.body = q[X].body)
-                     /\ q[X].sends + 1 <= 1 + gl.maxretries
+                     /\ q[X].sends + q[X].fails + 1 <= 1 + gl.maxretries
                      /\ gl.sched => (~q[X].acked /\ ~q[X].resret))
         /\ q' = [q EXCEPT ![X].sends = @ + 1, ![X].msgid = Ev.msgid, ![X].seqno = Ev.seqno, ![X].body = Ev.body]
         /\ UNCHANGED <<tr, c, gl>>
 SendDone == /\ Ev.ev = "SendDone" /\ q' = [q EXCEPT ![X].sentdone = @ + 1] /\ UNCHANGED <<tr, c, gl>>
-SendFail == /\ Ev.ev = "SendFail" /\ q' = [q EXCEPT ![X].sendfail = TRUE] /\ UNCHANGED <<tr, c, gl>>
+\* a transmission attempt the transport refused: it counts towards the bound like any other
+SendFail == /\ Ev.ev = "SendFail"
+            /\ On("C25", q[X].sends + q[X].fails + 1 <= 1 + gl.maxretries)
+            /\ q' = [q EXCEPT ![X].sendfail = TRUE, ![X].fails = @ + 1] /\ UNCHANGED <<tr, c, gl>>
 
 AckReturned == /\ Ev.ev = "AckReturned"
                /\ q' = [q EXCEPT ![X].acked = @ \/ (q[X].sends > 0 /\ q[X].st = "running")]
@@ -72,10 +75,12 @@ DoReturn ==
                /\ Ev.err = "ok" => q[X].writes = 1
                /\ Ev.err = "rpcerr" => \E j \in 1..MaxNotif : c[j].id = X /\ c[j].k = "err"
                /\ Ev.err = "ctx" => q[X].cancelled
-               /\ Ev.err \in {"closedRetryable", "closedAcked"} => (gl.closed \/ q[X].cancelled)
+               /\ Ev.err = "closedAcked" => (gl.closed \/ q[X].cancelled)
+               \* a call refused by an engine that is (being) closed never sent anything
+               /\ Ev.err = "closedRetryable" => (gl.closed \/ q[X].cancelled \/ (gl.gflag /\ q[X].sends = 0))
                /\ Ev.err = "senderr" => q[X].sendfail
                /\ Ev.err \in {"ok", "rpcerr", "ctx", "closedRetryable", "closedAcked", "senderr", "retrylimit"})
-  /\ On("C25", Ev.err = "retrylimit" => q[X].sends = 1 + gl.maxretries)
+  /\ On("C25", Ev.err = "retrylimit" => q[X].sends + q[X].fails = 1 + gl.maxretries)
   /\ On("C26", /\ Ev.err = "closedRetryable" => (Ev.retryable /\ (gl.sched => ~q[X].ackedAtClose))
                /\ Ev.err = "closedAcked" => (~Ev.retryable /\ (gl.sched => (q[X].acked \/ q[X].cancelled)))
                /\ Ev.err = "ctx" => q[X].drops = (IF q[X].sentdone > 0 THEN 1 ELSE 0)
@@ -90,6 +95,10 @@ Cancel == /\ Ev.ev = "Cancel" /\ q' = [q EXCEPT ![X].cancelled = TRUE] /\ UNCHAN
 \* an ack racing with the close may go either way; only acks received before the close bind
 ForceClose == /\ Ev.ev = "ForceClose" /\ gl' = [gl EXCEPT !.closed = TRUE]
               /\ q' = [x \in 1..MaxReq |-> [q[x] EXCEPT !.ackedAtClose = q[x].acked]] /\ UNCHANGED <<tr, c>>
+\* graceful Close: refuses new calls, waits for the pending ones, cancels nothing
+Close == /\ Ev.ev = "Close" /\ gl' = [gl EXCEPT !.gflag = TRUE] /\ UNCHANGED <<tr, q, c>>
+\* (DoReturn is recorded after Do returned, i.e. after wg.Done: no ordering against CloseReturned to check)
+CloseReturned == /\ Ev.ev = "CloseReturned" /\ UNCHANGED <<tr, q, c, gl>>
 \* (the driver records DoReturn after Do returned, i.e. after wg.Done: no ordering to check here)
 ForceCloseReturned == /\ Ev.ev = "ForceCloseReturned" /\ UNCHANGED <<tr, q, c, gl>>
 Other == /\ Ev.ev \in {"Tick", "AckCall", "Note", "SendAbort"} /\ UNCHANGED <<tr, q, c, gl>>
@@ -101,7 +110,7 @@ End == /\ Ev.ev = "End"
 
 Next == /\ i <= Len(Trace) /\ i' = i + 1
         /\ (Reset \/ DoStart \/ Send \/ SendDone \/ SendFail \/ AckReturned \/ ResultCall \/ ResultReturned \/ Write \/ Drop
-            \/ DoReturn \/ Cancel \/ ForceClose \/ ForceCloseReturned \/ Other \/ Stuck \/ End)
+            \/ DoReturn \/ Cancel \/ ForceClose \/ ForceCloseReturned \/ Close \/ CloseReturned \/ Other \/ Stuck \/ End)
 Spec == Init /\ [][Next]_vars
 
 Mark == TLCSet(1, i) /\ TLCSet(2, tr)
